@@ -1,10 +1,128 @@
 """C07, C20 and the client halves of C04/C05 (specs/Client.tla)."""
+import json
+import os
+
 from .common import *
+
+CLIENT_BUGS_OFF = {"BugReturnSlotsOnContinues": False, "BugOnewayTakesReader": False, "BugBusyAfterWrite": False,
+                   "BugIterStopsEarly": False, "BugErrorKindSwap": False}
+CLIENT_INVS = ["OneOwner", "ReplyToRequester", "SendOnce", "OnewayConsumesNothing", "ReusableAfterFinal", "IterationShape"]
+
+
+def client_model(res, threads, objs, maxops, scriptset, tag, emit=False, simulate=None, workers=8):
+    consts = dict(CLIENT_BUGS_OFF, Threads=set(threads), Objs=set(objs), MaxOps=maxops, ScriptSet=scriptset, Emit=emit)
+    cfg = write_cfg(os.path.join(res.wd, "MC_Client_%s.cfg" % tag), constants=consts,
+                    invariants=CLIENT_INVS + (["EmitCase"] if emit else []), properties=["BusyWritesNothing"])
+    r = run_tlc("MC_Client", cfg, res.wd, workers=1 if simulate else workers, timeout=1800, tag="client-" + tag,
+                simulate=simulate, extra=["-depth", "60"] if simulate else [])
+    if simulate:
+        res.cmds.append(r.cmd)
+    else:
+        res.add_tlc(r)
+    if r.violation:
+        res.tlc_violation(r, "MC_Client " + tag)
+    return r
+
+
+def replay_client(res, vh, cases, stage, sub="client"):
+    fails, summ, _ = run_vh(vh, [sub], cases, timeout=1800)
+    res.add_failures(fails, stage)
+    res.traces += summ["executions"]
+    res.evaluations += summ["executions"]
+    return summ
+
+
+def hsig(c):
+    return " ".join("%s%s(%s)" % (e["op"], ":" + e["mode"] if e["mode"] else "", e["c"]) for e in c["h"])
+
+
+def client_trace(res, vh, runs, threads, stage):
+    from .conn_checks import validate_trace
+    tr = os.path.join(res.wd, "ctrace-%s.ndjson" % stage)
+    fails, summ, _ = run_vh(vh, ["clienttrace", "--runs=%d" % runs, "--threads=%d" % threads, "--out=" + tr], [])
+    objs = set()
+    for t in range(1, threads + 1):
+        for k in range(1, 7):
+            objs.add(t * 10 + k)
+    consts = dict(CLIENT_BUGS_OFF, Threads=set(range(1, threads + 1)), Objs=objs)
+    cfg = write_cfg(os.path.join(res.wd, "Trace_Client_%s.cfg" % stage), spec="TraceSpec", constants=consts,
+                    invariants=["TraceInv"], constraints=["Mark"], postcondition="TraceAccepted")
+    env = {"TRACE": tr, "JAVA_TOOL_OPTIONS": "-Dtlc2.tool.queue.IStateQueue=StateDeque"}
+    r = run_tlc("Trace_Client", cfg, res.wd, workers=1, tag="trace-" + stage, env=env, xmx="6g", timeout=1800)
+    res.add_tlc(r)
+    txt = open(r.outfile, errors="replace").read()
+    if r.violation or "TRACE-REJECTED" in txt:
+        ls = txt.splitlines()
+        detail = "client trace not linearisable"
+        for i, line in enumerate(ls):
+            if "TRACE-REJECTED" in line:
+                detail = " ".join(x.strip() for x in ls[i:i + 30])[:1500]
+                break
+        res.violations.append({"detail": detail, "sig": "trace:Trace_Client", "trace": tr, "tlc_output": r.outfile, "stage": stage})
+    res.traces += summ["executions"]
+    res.evaluations += summ["executions"]
+    res.extra["ops_" + stage] = summ.get("ops", 0)
 
 
 def client_oneway_stage(res, vh, thorough):
-    pass
+    """C04 client half: oneway returns after sending and never consumes a reply."""
+    r = client_model(res, [1], [1, 2, 3] if not thorough else [1, 2, 3, 4], 4 if not thorough else 5, "oneway", "oneway", emit=True)
+    cases = [c for c in r.replay if any(e["mode"] == "oneway" for e in c["h"])]
+    replay_client(res, vh, cases, "client-oneway")
+    # against the real server through generated bindings: every interleaving of oneway and normal calls
+    real = [c for c in r.replay if all((e["op"] == "send" and e["mode"] in ("oneway", "call") and e["res"][0] == "Ok") or e["op"] == "call"
+                                       for e in c["h"]) and any(e["mode"] == "oneway" for e in c["h"])]
+    fails, summ, _ = run_vh(vh, ["clientreal"], real, timeout=900)
+    res.add_failures(fails, "client-oneway-realserver")
+    res.traces += summ["executions"]
+    res.evaluations += summ["executions"]
+    res.extra["client_oneway_histories"] = len(cases)
+    res.extra["client_oneway_realserver_histories"] = len(real)
+    res.nontrivial |= {"client:" + hsig(c) for c in cases}
 
 
 def client_more_stage(res, vh, thorough):
-    pass
+    """C05 client half: iteration yields continues replies in order, then the final one, then ends; connection reusable."""
+    r = client_model(res, [1], [1, 2], 4 if not thorough else 5, "streams", "streams", emit=True)
+    cases = [c for c in r.replay if any(e["mode"] == "more" for e in c["h"])]
+    replay_client(res, vh, cases, "client-more")
+    res.extra["client_more_histories"] = len(cases)
+    res.nontrivial |= {"client:" + hsig(c) + json.dumps([e["script"] for e in c["h"]]) for c in cases
+                       if any(e["op"] == "next" for e in c["h"])}
+
+
+def check_C07(tier):
+    res = Result("C07", tier, "model_checking")
+    vh = build_harness()
+    thorough = tier == "thorough"
+    # (1) every reply object x {call, more}: the outcome table
+    r = client_model(res, [1], [1], 2, "replies", "replies", emit=True)
+    replay_client(res, vh, r.replay, "outcomes")
+    res.extra["reply_objects"] = 36
+    # (2) operation histories, one thread
+    r2 = client_model(res, [1], [1, 2, 3], 4, "small", "hist4", emit=True)
+    cases = list(r2.replay)
+    if thorough:
+        r3 = client_model(res, [1], [1, 2, 3], 5, "small", "hist5", emit=True)
+        cases += r3.replay
+        r4 = client_model(res, [1], [1, 2], 3, "finals", "finals3", emit=True)
+        cases += r4.replay
+    replay_client(res, vh, cases, "histories")
+    for c in cases[11::5000][:4]:
+        res.sample({"history": [[e["op"], e["mode"], e["c"], e["res"]] for e in c["h"]], "wire": c["wire"]})
+    res.nontrivial |= {hsig(c) for c in cases if any(e["res"][0] == "Err" and e["res"][1] in ("ConnectionBusy", "MethodCalledAlready") for e in c["h"])}
+    # (3) interleavings of threads sharing the connection: the model ...
+    client_model(res, [1, 2], [1, 2, 3, 4], 4, "small", "threads2")
+    if thorough:
+        client_model(res, [1, 2, 3], [1, 2, 3, 4, 5, 6], 4, "oneway", "threads3")
+    # ... and real threads, validated by linearisation search
+    client_trace(res, vh, 1500 if thorough else 300, 4, "t4")
+    if thorough:
+        client_trace(res, vh, 1500, 8, "t8")
+    res.rule = ("Client.tla: all histories over {call, more, next, oneway, re-send, call-while-busy} up to 4/5 operations with scripted reply "
+                "streams, every reply object (36) in the outcome table; 2..3 model threads for interleavings; real threads (2..4/8) logged "
+                "and linearised against the spec; non-trivial = distinct histories containing a refused (busy / already-called) operation")
+    res.exhaustive = True
+    res.assumptions = ["the scripted service answers in request order and honours oneway",
+                       "real thread schedules are sampled; the linearisation search is exhaustive per recorded run"]
+    return res.finish()
